@@ -139,8 +139,14 @@ def run_engines(ctx, ms, want, info, rng, engines=("factored", "local", "public"
         attrs, sizes = ["m0"], [2]
     dom = Domain(attrs, sizes)
     style = rng.choice(["dense", "sparse", "operator"])
-    info = dict(info, spelling=style, domain=dict(zip(attrs, sizes)))
-    meas = [(spelled(Q, style), np.array(y, dtype=float), float(noise), (attrs[proj_of[i]],)) for i, (Q, noise, y) in enumerate(ms)]
+    # one measurement may be handed over in other units: (cQ, cy, c noise) carries exactly the same information for every c > 0
+    # (the usual "divide the query by its noise level" normalisation is c = 1/sigma)
+    unit = rng.choice([1.0, 1.0, 0.02, 0.05, 64.0])
+    info = dict(info, spelling=style, domain=dict(zip(attrs, sizes)), units_of_first_measurement=unit)
+    def sc_(i, arr):
+        return arr * (unit if i == 0 else 1.0)
+    meas = [(spelled((np.array(Q, dtype=float) * (unit if i == 0 else 1.0)).tolist(), style), sc_(i, np.array(y, dtype=float)), float(noise) * (unit if i == 0 else 1.0),
+             (attrs[proj_of[i]],)) for i, (Q, noise, y) in enumerate(ms)]
     info["projections"] = [attrs[p] for p in proj_of]
     got = {}
     try:
@@ -153,6 +159,14 @@ def run_engines(ctx, ms, want, info, rng, engines=("factored", "local", "public"
             eng = LocalInference(dom, iters=1, marginal_oracle="convex")
             eng._setup(list(meas), None)
             got["LocalInference"] = float(eng.model.total)
+            if max(sizes) <= 8:
+                # a caller-built oracle object (constructed with its default total): the tables it returns carry the estimated total
+                from mbi import RegionGraph
+                orc = RegionGraph(dom, [m_[3] for m_ in meas], convex=True, iters=3)
+                eng2 = LocalInference(dom, iters=1, marginal_oracle=orc)
+                with np.errstate(all="ignore"):
+                    m2 = eng2.estimate(list(meas), total=None)
+                got["LocalInference(oracle object).project-sum"] = float(np.asarray(m2.project(meas[0][3]).values, dtype=float).sum())
         if "public" in engines:
             got["public_inference.estimate_total"] = float(public_inference.estimate_total(list(meas)))
             if ms and max(sizes) <= 16:
